@@ -69,7 +69,8 @@ pub fn gen_scalar(src: &mut Src) -> J {
         3 => J::Int(*src.pick(&[0, 1, 2, -1, 3, 5, 10, 100])),
         4 => J::Float(*src.pick(&[1.0, 1.5, 0.5, -0.0, 2.0, 0.1, 1e2, -1.5])),
         5 => J::Str(src.pick(&["", "a", "b", "ab", "1", "A", "é", "𝄞", "abc", " "]).to_string()),
-        _ => match src.below(4) {
+        _ => match src.below(5) {
+            4 => J::Str(src.pick(&["x", "é", "𝄞"]).repeat(*src.pick(&[64usize, 255, 256, 257, 1000]))),
             0 => J::Int(MAX_SAFE),
             1 => J::Int(-MAX_SAFE),
             2 => J::Float(1e300),
@@ -95,9 +96,10 @@ pub fn gen_value(src: &mut Src, depth_left: usize, cfg: &GenCfg) -> J {
     } else {
         src.weighted(&[35, 30, 35])
     };
-    // now and then a wide container of scalars (lengths the small shapes never reach)
+    // now and then a wide container of scalars (lengths the small shapes never reach), rarely a very
+    // wide one (beyond 32 / 64 / 256 elements)
     if kind != 0 && src.chance(1, 25) {
-        let n = 5 + src.below(12);
+        let n = if src.chance(1, 8) { *src.pick(&[31usize, 33, 63, 65, 127, 129, 255, 257, 300]) } else { 5 + src.below(12) };
         return if kind == 1 {
             J::Arr((0..n).map(|_| gen_scalar(src)).collect())
         } else {
@@ -137,6 +139,27 @@ pub fn gen_value(src: &mut Src, depth_left: usize, cfg: &GenCfg) -> J {
 pub fn gen_doc(src: &mut Src, cfg: &GenCfg) -> J {
     if src.chance(1, 25) {
         gen_scalar(src)
+    } else if src.chance(1, 60) {
+        // a deep, narrow document (depth 8-40)
+        let depth = 8 + src.below(33);
+        let mut j = gen_scalar(src);
+        for i in 0..depth {
+            j = if src.bool() {
+                let mut items = vec![j];
+                if src.chance(1, 3) {
+                    items.insert(0, gen_scalar(src));
+                }
+                J::Arr(items)
+            } else {
+                let mut m = vec![(gen_key(src, cfg), j)];
+                if src.chance(1, 3) {
+                    let k = format!("s{}", i);
+                    m.push((k, gen_scalar(src)));
+                }
+                J::Obj(m)
+            };
+        }
+        j
     } else {
         let d = 1 + src.below(cfg.max_depth);
         let mut j = gen_value(src, d, cfg);
